@@ -454,26 +454,161 @@ theorem classify_func_counterexample : ¬ classify_func_statement := by
 
 /-! ## classification: declaration vs reference for `name` / `var` -/
 
-/-- a `name` is a parameter declaration exactly below `typedparam`; `cls` / `self` get their own classes -/
+/-- a `name` is a parameter declaration exactly below the parameter tag; the two receiver words get their own classes
+    (tags and words are the generated constants of `DeclableMatcher`) -/
 theorem classify_name_param (f : NameFeat) :
-    (nameClass f = .declParam ↔ f.parentTag = some c!"typedparam" ∧ f.tokens ≠ c!"cls" ∧ f.tokens ≠ c!"self")
-    ∧ (nameClass f = .declThisParam ↔ f.parentTag = some c!"typedparam" ∧ f.tokens = c!"self")
-    ∧ (nameClass f = .declClassParam ↔ f.parentTag = some c!"typedparam" ∧ f.tokens = c!"cls") := by
-  have hne : (c!"cls" : Str) ≠ c!"self" := by decide
-  have hta : (c!"typedparam" : Str) ≠ c!"argvalue" := by decide
-  by_cases hp : f.parentTag = some c!"typedparam"
+    (nameClass f = .declParam ↔ f.parentTag = some Generated.DeclMatchers.paramParent
+        ∧ f.tokens ≠ Generated.DeclMatchers.clsWord ∧ f.tokens ≠ Generated.DeclMatchers.selfParamWord)
+    ∧ (nameClass f = .declThisParam ↔ f.parentTag = some Generated.DeclMatchers.paramParent ∧ f.tokens = Generated.DeclMatchers.selfParamWord)
+    ∧ (nameClass f = .declClassParam ↔ f.parentTag = some Generated.DeclMatchers.paramParent ∧ f.tokens = Generated.DeclMatchers.clsWord) := by
+  have hne : Generated.DeclMatchers.clsWord ≠ Generated.DeclMatchers.selfParamWord := by decide
+  have hta : Generated.DeclMatchers.paramParent ≠ c!"argvalue" := by decide
+  by_cases hp : f.parentTag = some Generated.DeclMatchers.paramParent
   · have ha : isArgumentLabel f = false := by
-      simp [isArgumentLabel, hp]
-    by_cases hc : f.tokens = c!"cls"
+      simp [isArgumentLabel, hp, hta]
+    by_cases hc : f.tokens = Generated.DeclMatchers.clsWord
     · simp [nameClass, ha, isParamClass, hp, hc, hne]
-    · by_cases hs : f.tokens = c!"self"
+    · by_cases hs : f.tokens = Generated.DeclMatchers.selfParamWord
       · simp [nameClass, ha, isParamClass, isParamThis, hp, hs, hne.symm]
-      · simp [nameClass, ha, isParamClass, isParamThis, isParam, isClassOrThis, hp, hc, hs]
+      · simp [nameClass, ha, isParamClass, isParamThis, isParam, hp, hc, hs]
   · have h1 : isParamClass f = false := by simp [isParamClass, hp]
     have h2 : isParamThis f = false := by simp [isParamThis, hp]
     have h3 : isParam f = false := by simp [isParam, hp]
     simp only [nameClass, h1, h2, h3, hp, false_and, iff_false]
     cases isArgumentLabel f <;> cases isDeclLocalVar f <;> cases inDeclClassType f <;> cases inDeclImport f <;> simp
+
+/-- the finite facts about the generated `DeclableMatcher` constants that `decl_role_exact` uses (re-decided whenever
+    primary.py changes a tag or word) -/
+theorem decl_matchers_facts :
+    Generated.DeclMatchers.localAssigns = [c!"assign", c!"anno_assign"]
+    ∧ Generated.DeclMatchers.localNamelist = c!"assign_namelist"
+    ∧ Generated.DeclMatchers.forwardAssign = c!"anno_assign" ∧ Generated.DeclMatchers.forwardNamelist = c!"assign_namelist"
+    ∧ Generated.DeclMatchers.altNamelist = c!"assign_namelist"
+    ∧ Generated.DeclMatchers.altAssigns = [c!"class_assign", c!"template_assign"]
+    ∧ Generated.DeclMatchers.classVarParents = [[c!"class_var_assign", c!"assign_namelist"], [c!"class_var_anno_assign", c!"assign_namelist"]]
+    ∧ Generated.DeclMatchers.nameOnlyParents = [c!"for_namelist", c!"except_clause", c!"with_item", c!"lambdaparams"]
+    ∧ Generated.DeclMatchers.nameTag = c!"name" ∧ Generated.DeclMatchers.paramParent = c!"typedparam"
+    ∧ Generated.DeclMatchers.classTypeParents = [c!"class_def_raw", c!"function_def_raw"]
+    ∧ Generated.DeclMatchers.importParent = c!"import_as_name"
+    ∧ Generated.DeclMatchers.localExcluded = [c!"cls", c!"self"]
+    ∧ namelistTags = [c!"assign_namelist", c!"assign_namelist", c!"assign_namelist", c!"assign_namelist", c!"assign_namelist"] :=
+  matcherFacts
+
+/-- **Declaration vs reference, exactly.** For every position a bare identifier can take in the modelled statement forms
+    (targets of plain / annotated / class-variable / augmented assignments, `for` and comprehension targets, `with … as`,
+    `except … as`, lambda and def parameters, def / class / imported names, keyword labels, attribute names, the operand
+    of a statement, anywhere deeper in an expression), below ANY enclosing context of blocks, classes, functions and
+    outer expressions, the class the first-match dispatch gives the node has exactly the role Python gives the
+    occurrence: binding, class-variable binding, use, or label. (`cls` / `self` as assignment targets are excluded:
+    tranp reads them as the receiver references.) -/
+theorem decl_role_exact (ctx : List Str) (pos : NamePos) (toks : Str) (recv : Bool)
+    (hwf : pos.wf = true) (hid : AstPath.dsnElemCounts toks = 1)
+    (hres : pos = .assignTarget ∨ pos = .annTarget → isClassOrThis toks = false) :
+    roleOf (classAt ctx pos toks recv) = pos.pyRole := by
+  obtain ⟨f1, f2, f3, f4, f5, f6, f7, f8, f9, f10, f11, f12, f13, f14⟩ := decl_matchers_facts
+  have pt2 : ∀ (a b : Str), (NameFeat.mk (ctx ++ [a, b]) toks recv).parentTag = some a := fun a b => fe2_2 ctx a b
+  have lt2 : ∀ (a b : Str), (NameFeat.mk (ctx ++ [a, b]) toks recv).lastTag = some b := fun a b => fe2_1 ctx a b
+  have pt3 : ∀ (a b c : Str), (NameFeat.mk (ctx ++ [a, b, c]) toks recv).parentTag = some b := fun a b c => fe3_2 ctx a b c
+  have lt3 : ∀ (a b c : Str), (NameFeat.mk (ctx ++ [a, b, c]) toks recv).lastTag = some c := fun a b c => fe3_1 ctx a b c
+  -- a `name` directly below tag `x` (two-element suffix)
+  have nameBelow : ∀ x : Str, nameClass ⟨ctx ++ [x, c!"name"], toks, recv⟩ =
+      (if x = c!"argvalue" then .argumentLabel
+       else if x = c!"typedparam" then (if toks = Generated.DeclMatchers.clsWord then .declClassParam
+          else if toks = Generated.DeclMatchers.selfParamWord then .declThisParam else .declParam)
+       else if x ∈ [c!"for_namelist", c!"except_clause", c!"with_item", c!"lambdaparams"] then .declLocalVar
+       else if x = c!"assign_namelist" then nameClass ⟨ctx ++ [x, c!"name"], toks, recv⟩
+       else if x ∈ [c!"class_def_raw", c!"function_def_raw"] then .typesName
+       else if x = c!"import_as_name" then .importName else .var) := by
+    intro x
+    by_cases hx : x = c!"assign_namelist"
+    · subst hx; simp +decide
+    · simp only [nameClass, isArgumentLabel, isParamClass, isParamThis, isParam, isDeclLocalVar, inDeclClassType, inDeclImport,
+        pt2, lt2, dl2, endsWith2, fe1_1, f1, f2, f8, f9, f10, f11, f12]
+      by_cases h1 : x = c!"argvalue"
+      · subst h1; simp
+      · by_cases h2 : x = c!"typedparam"
+        · subst h2
+          by_cases hc : toks = Generated.DeclMatchers.clsWord
+          · simp [hc]
+          · by_cases hs : toks = Generated.DeclMatchers.selfParamWord
+            · have : Generated.DeclMatchers.selfParamWord ≠ Generated.DeclMatchers.clsWord := by decide
+              simp [hs, this]
+            · simp [hc, hs]
+        · simp [h1, h2, hx]
+  cases pos with
+  | withAs => simp only [classAt, NamePos.suffix, List.getLast?, if_true]; rw [nameBelow]; simp [roleOf, NamePos.pyRole]
+  | exceptAs => simp only [classAt, NamePos.suffix, List.getLast?, if_true]; rw [nameBelow]; simp [roleOf, NamePos.pyRole]
+  | lambdaParam => simp only [classAt, NamePos.suffix, List.getLast?, if_true]; rw [nameBelow]; simp [roleOf, NamePos.pyRole]
+  | defName => simp only [classAt, NamePos.suffix, List.getLast?, if_true]; rw [nameBelow]; simp [roleOf, NamePos.pyRole]
+  | className => simp only [classAt, NamePos.suffix, List.getLast?, if_true]; rw [nameBelow]; simp [roleOf, NamePos.pyRole]
+  | importedName => simp only [classAt, NamePos.suffix, List.getLast?, if_true]; rw [nameBelow]; simp [roleOf, NamePos.pyRole]
+  | kwLabel => simp only [classAt, NamePos.suffix, List.getLast?, if_true]; rw [nameBelow]; simp [roleOf, NamePos.pyRole]
+  | attrName => simp only [classAt, NamePos.suffix, List.getLast?, if_true]; rw [nameBelow]; simp [roleOf, NamePos.pyRole]
+  | param =>
+    simp only [classAt, NamePos.suffix, List.getLast?, if_true]; rw [nameBelow]
+    simp only [NamePos.pyRole]
+    simp +decide only [if_false, if_true]
+    split <;> (try split) <;> rfl
+  | forTarget =>
+    simp only [classAt, NamePos.suffix, List.getLast?, if_true]
+    simp +decide [nameClass, isArgumentLabel, isParamClass, isParamThis, isParam, isDeclLocalVar, pt3, lt3, f8, f9, f10, roleOf, NamePos.pyRole]
+  | compTarget =>
+    simp only [classAt, NamePos.suffix, List.getLast?, if_true]
+    simp +decide [nameClass, isArgumentLabel, isParamClass, isParamThis, isParam, isDeclLocalVar, pt3, lt3, f8, f9, f10, roleOf, NamePos.pyRole]
+  | assignTarget =>
+    have hr := hres (Or.inl rfl)
+    simp only [classAt, NamePos.suffix]
+    have hl := local3 ctx c!"assign" c!"assign_namelist" toks recv
+    simp +decide [hr, hid] at hl
+    cases hfw : isDeclThisVarForward ⟨ctx ++ [c!"assign", c!"assign_namelist", c!"var"], toks, recv⟩ <;>
+      simp +decide [varClass, classVar3, hl, hfw, roleOf, NamePos.pyRole]
+  | annTarget =>
+    have hr := hres (Or.inr rfl)
+    simp only [classAt, NamePos.suffix]
+    have hl := local3 ctx c!"anno_assign" c!"assign_namelist" toks recv
+    simp +decide [hr, hid] at hl
+    cases hfw : isDeclThisVarForward ⟨ctx ++ [c!"anno_assign", c!"assign_namelist", c!"var"], toks, recv⟩ <;>
+      simp +decide [varClass, classVar3, hl, hfw, roleOf, NamePos.pyRole]
+  | classVarTarget anno =>
+    cases anno <;>
+    · simp only [classAt, NamePos.suffix]
+      simp +decide [varClass, classVar3, roleOf, NamePos.pyRole]
+  | augTarget =>
+    simp only [classAt, NamePos.suffix]
+    have hl := local3 ctx c!"aug_assign" c!"assign_namelist" toks recv
+    simp +decide at hl
+    exact varClass_ref_of _ (by simp +decide [classVar3]) (forward_false _ (Or.inl (by rw [f3]; simp only [fe3_3]; decide))) hl
+      (alt_false_of_third _ (by simp) (by rw [f6]; intro t ht; simp only [fe3_3]; simp at ht; rcases ht with rfl | rfl <;> decide))
+  | valueOf stmt =>
+    have hs : stmt ≠ c!"assign_namelist" := by
+      simp only [NamePos.wf, f14] at hwf
+      intro h; subst h; simp at hwf
+    have hsuf : (NamePos.valueOf stmt).suffix.getLast? ≠ some c!"name" := by simp [NamePos.suffix]
+    simp only [classAt, hsuf, if_false, NamePos.suffix, NamePos.pyRole]
+    exact varClass_ref_of _ (classVar2_false ctx stmt toks recv hs)
+      (forward_false _ (Or.inr (by rw [f4]; simp only [fe2_2]; simpa using hs)))
+      (local2_false ctx stmt toks recv hs) (alt_false_of_parent _ (by rw [f5]; simp only [NameFeat.parentTag, fe2_2]; simpa using hs))
+  | inExpr p2 p1 =>
+    have hs : p1 ≠ c!"assign_namelist" := by
+      simp only [NamePos.wf, f14] at hwf
+      intro h; subst h; simp at hwf
+    simp only [classAt, NamePos.suffix, NamePos.pyRole]
+    have hc := classVar3 ctx p2 p1 toks recv
+    have hl := local3 ctx p2 p1 toks recv
+    have hb : (p1 == c!"assign_namelist") = false := by simpa using hs
+    simp only [hb, Bool.and_false, Bool.or_false, Bool.false_and] at hc hl
+    exact varClass_ref_of _ hc (forward_false _ (Or.inr (by rw [f4]; simp only [fe3_2]; simpa using hs))) hl
+      (alt_false_of_parent _ (by rw [f5]; simp only [NameFeat.parentTag, fe3_2]; simpa using hs))
+
+/-- non-vacuity: `x = …` in a method body nested in a class in a function declares `x`; `x` inside a call argument of the
+    value of a class variable is a use (the round-4 seeded mutation classified it as a declaration) -/
+example :
+    roleOf (classAt [c!"file_input", c!"function_def", c!"function_def_raw", c!"block", c!"class_def", c!"class_def_raw", c!"block",
+        c!"function_def", c!"function_def_raw", c!"block"] .assignTarget c!"x" true) = .decl
+    ∧ roleOf (classAt [c!"file_input", c!"class_def", c!"class_def_raw", c!"block", c!"class_var_anno_assign"]
+        (.inExpr c!"funccall" c!"arguments") c!"x" true) = .ref
+    ∧ (NamePos.inExpr c!"funccall" c!"arguments").wf = true := by
+  decide +kernel
 
 /-- a `var` is classified as a reference (`Var`, `ClassRef`, `ThisRef`) exactly when none of the four declaration
     patterns of `DeclableMatcher` holds -/
